@@ -73,10 +73,23 @@ W = {
     "D28-nested-array-element": ("D28-nested-array-elements-dropped", ["C10"], {"C10": "C10"},
                                  prog([svc([("lit", "Fq", fq_json(nums=("arr", [n(1), n(2), ("arr", [n(3)])])))])]),
                                  ("span_stmt", 0, (0,))),
+    # the run: S1 is completed (the only completion there is), d = {count: 0, ratio: 1.5, flag: true}
+    "D18-division-by-zero": ("D18-division-by-zero-escapes", ["C09"], {"C09": "C09"},
+                             prog([svc(outs=[("d", ("plain", "Data"))], name="S1"),
+                                   ("cond", cmp_("<", cmp_("/", P("d", "ratio"), P("d", "count")), n(1)),
+                                    [svc(name="S2")], [svc(name="S3")])],
+                                  structs=[{"name": "Data", "attrs": [("count", faults.NUM), ("ratio", faults.NUM),
+                                                                      ("flag", ("plain", "boolean"))]}]),
+                             ("span_stmt", 0, (1,))),
     "D21-array-length-by-name": ("D21-array-length-error-without-line", ["C19"], {"C19": "C19"},
                                  prog([svc()], structs=faults.SUPPORT_STRUCTS + [
                                      {"name": "Fnew", "attrs": [("a", faults.NUM), ("zz", ("array", "number", "k"))]}]),
                                  ("span_struct", 2)),
+}
+
+EXTRA_META = {
+    "D18-division-by-zero": {"values": {"productionTask": {"d": {"count": 0, "ratio": 1.5, "flag": True}}},
+                             "completion_order": ["S1"]},
 }
 
 FUZZ = {
@@ -92,8 +105,10 @@ def main():
     for name, (fid, props, mons, p, span) in W.items():
         lm = {}
         text = gen_check.render(p, None, lm)
+        meta = {"family": "witness", "name": name, "span": span, "seed": name}
+        meta.update(EXTRA_META.get(name, {}))
         c = {"kind": "check", "mode": "program", "properties": props, "finding": fid, "monitors": mons,
-             "program_text": text, "prog": p, "meta": {"family": "witness", "name": name, "span": span, "seed": name},
+             "program_text": text, "prog": p, "meta": meta,
              "linemap": [[list(k) if isinstance(k, tuple) else k, v] for k, v in lm.items()]}
         with open(os.path.join(out_dir, "check-%s.json" % name), "w") as f:
             json.dump(common.enc(c), f, indent=1, sort_keys=True)
